@@ -152,7 +152,12 @@ JMulti(r) ==
              shp => CB("C08.multi.relative_after_set", \A k \in 1..Len(r.sets) : RelOK(o.steps[k].rel, k)),
              shp => CB("C08.multi.jacobian_columns", \A b \in 1..nb : Len(o.jcols[b]) = 6 * (nb - 1) + 1 /\ o.jcols[b][6 * (nb - 1) + 1] = 0 /\
                           \A c \in 1..(6 * (nb - 1)) :
-                              o.jcols[b][c] = (IF b \in moving /\ c - 1 >= 6 * o.pidx[b] /\ c - 1 < 6 * o.pidx[b] + 6 THEN c - 6 * o.pidx[b] ELSE 0)) >>)
+                              o.jcols[b][c] = (IF b \in moving /\ c - 1 >= 6 * o.pidx[b] /\ c - 1 < 6 * o.pidx[b] + 6 THEN c - 6 * o.pidx[b] ELSE 0)),
+             \* a second fill of the same matrix (0, 7, 0, 8, -0, 9) replaces the first one entry by entry, zeros included
+             shp => CB("C08.multi.jacobian_refill", Len(o.jrefill) = nb /\ \A b \in 1..nb : Len(o.jrefill[b]) = 6 * (nb - 1) /\
+                          \A c \in 1..(6 * (nb - 1)) :
+                              o.jrefill[b][c] = (IF b \in moving /\ c - 1 >= 6 * o.pidx[b] /\ c - 1 < 6 * o.pidx[b] + 6
+                                                 THEN <<0, 7, 0, 8, 0, 9>>[c - 6 * o.pidx[b]] ELSE 0)) >>)
 
 \* ---------------------------------------------------------------- stateless: general-position floats (derived residuals only)
 TRT == 2000        \* 2e-6 on points within ~20 units of the centre (units of 1e-9)
